@@ -10,7 +10,9 @@ import (
 
 // C11: constants of the priority protocol, the parse calls behind the eviction-priority / priority labels,
 // the evicted-cache (TTL, Get/set guards), the place where the Evictor records a pod (only after a
-// successful API call), the executor's two modes and the guard order of the KillAndEvictPods loop.
+// successful API call), the executor's two modes, the guard order of the KillAndEvictPods loop and the metric glue
+// (CollectPodMetricLast: window factor, no value without asking the aggregate; last-of-empty is an error; the priority
+// list builders skip a pod on a metric error).
 func init() {
 	extractors["C11"] = func(e *ext) {
 		norm := func(x ast.Node) string { return strings.ReplaceAll(types.ExprString(x.(ast.Expr)), " ", "") }
@@ -247,5 +249,170 @@ func init() {
 			order = mp != token.NoPos && isEv != token.NoPos && ev != token.NoPos && mp < isEv && isEv < ev
 		}
 		fmt.Fprintf(&e.out, "def loopGuardOrder : Bool := %v\ndef loopBreaks : Nat := %d\ndef loopBreaksUnderCoveredTest : Bool := %v\n", order, nBreak, breaksOK)
+
+		// --- the metric glue (Model/C11Metric.lean); shapes are matched structurally, not by local variable names
+		isNil := func(x ast.Expr) bool { id, ok := x.(*ast.Ident); return ok && id.Name == "nil" }
+		neqNil := func(x ast.Expr) (string, bool) { // `<ident> != nil`
+			b, ok := x.(*ast.BinaryExpr)
+			if !ok || b.Op != token.NEQ || !isNil(b.Y) {
+				return "", false
+			}
+			id, ok := b.X.(*ast.Ident)
+			if !ok {
+				return "", false
+			}
+			return id.Name, true
+		}
+		methodCall := func(x ast.Expr, name string, nargs int) bool { // `<expr>.<name>(<nargs args>)`
+			c, ok := x.(*ast.CallExpr)
+			if !ok || len(c.Args) != nargs {
+				return false
+			}
+			sel, ok := c.Fun.(*ast.SelectorExpr)
+			return ok && sel.Sel.Name == name
+		}
+		lastParam := func(fd *ast.FuncDecl) string {
+			if fd.Type.Params == nil || len(fd.Type.Params.List) == 0 {
+				return "?"
+			}
+			l := fd.Type.Params.List[len(fd.Type.Params.List)-1]
+			if len(l.Names) == 0 {
+				return "?"
+			}
+			return l.Names[len(l.Names)-1].Name
+		}
+		endsInContinue := func(b *ast.BlockStmt) bool {
+			if len(b.List) == 0 {
+				return false
+			}
+			br, ok := b.List[len(b.List)-1].(*ast.BranchStmt)
+			return ok && br.Tok == token.CONTINUE
+		}
+		hd := "pkg/koordlet/qosmanager/helpers"
+		md := "pkg/koordlet/metriccache"
+		// CollectPodMetricLast: window = GenerateQueryParamsLast(metricCollectInterval * 2); every return is either
+		// `return 0, err` (under `err != nil`) or `return result.Value(queryParam.Aggregate)` — no path hands back a
+		// value with a nil error without asking the aggregate (an empty result stays an error)
+		factor, onlyErrOrValue, nRet := int64(-1), true, 0
+		if fd := need(hd, "", "CollectPodMetricLast"); fd != nil {
+			cs := calls(fd)["GenerateQueryParamsLast"]
+			if len(cs) == 1 && len(cs[0].Args) == 1 {
+				if b, ok := cs[0].Args[0].(*ast.BinaryExpr); ok && b.Op == token.MUL && norm(b.X) == lastParam(fd) {
+					factor, _ = e.evalInt(hd, b.Y, 0)
+				}
+			}
+			ast.Inspect(fd.Body, func(n ast.Node) bool {
+				if r, ok := n.(*ast.ReturnStmt); ok {
+					nRet++
+					switch {
+					case len(r.Results) == 2 && !isNil(r.Results[1]): // hands an error variable on, never a literal nil error
+					case len(r.Results) == 1 && methodCall(r.Results[0], "Value", 1): // the aggregate's own (value, error)
+					default:
+						onlyErrOrValue = false
+					}
+				}
+				return true
+			})
+			// the only `if` is the error check of the query
+			ast.Inspect(fd.Body, func(n ast.Node) bool {
+				if is, ok := n.(*ast.IfStmt); ok {
+					if _, ok := neqNil(is.Cond); !ok {
+						onlyErrOrValue = false
+					}
+				}
+				return true
+			})
+		}
+		fmt.Fprintf(&e.out, "def collectLastWindowFactor : Int := %d\ndef collectLastReturnsOnlyErrOrAggregate : Bool := %v\ndef collectLastReturns : Nat := %d\n", factor, onlyErrOrValue, nRet)
+		// GenerateQueryParamsLast: Aggregate = AggregationTypeLast, start = end.Add(-windowDuration)
+		aggLast, startIsEndMinusWindow := false, false
+		if fd := need(hd, "", "GenerateQueryParamsLast"); fd != nil {
+			ast.Inspect(fd.Body, func(n ast.Node) bool {
+				switch v := n.(type) {
+				case *ast.KeyValueExpr:
+					if norm(v.Key) == "Aggregate" && norm(v.Value) == "metriccache.AggregationTypeLast" {
+						aggLast = true
+					}
+				case *ast.AssignStmt:
+					if len(v.Lhs) == 1 && len(v.Rhs) == 1 && methodCall(v.Rhs[0], "Add", 1) {
+						if u, ok := v.Rhs[0].(*ast.CallExpr).Args[0].(*ast.UnaryExpr); ok && u.Op == token.SUB && norm(u.X) == lastParam(fd) {
+							startIsEndMinusWindow = true
+						}
+					}
+				}
+				return true
+			})
+		}
+		fmt.Fprintf(&e.out, "def queryParamsLastAggregatesLast : Bool := %v\ndef queryParamsLastStartIsEndMinusWindow : Bool := %v\n", aggLast, startIsEndMinusWindow)
+		// fieldLastOfMetricList: `if metrics.Len() == 0 { return 0, fmt.Errorf(...) }`, and a later point replaces the
+		// current one only `if timestamp.UnixNano() > lastTime`
+		emptyErr, strictlyLater := false, false
+		if fd := need(md, "", "fieldLastOfMetricList"); fd != nil {
+			ast.Inspect(fd.Body, func(n ast.Node) bool {
+				if is, ok := n.(*ast.IfStmt); ok {
+					b, ok := is.Cond.(*ast.BinaryExpr)
+					if !ok {
+						return true
+					}
+					switch {
+					case b.Op == token.EQL && methodCall(b.X, "Len", 0) && norm(b.Y) == "0":
+						if len(is.Body.List) == 1 {
+							if r, ok := is.Body.List[0].(*ast.ReturnStmt); ok && len(r.Results) == 2 && norm(r.Results[0]) == "0" {
+								if c, ok := r.Results[1].(*ast.CallExpr); ok && norm(c.Fun) == "fmt.Errorf" {
+									emptyErr = true
+								}
+							}
+						}
+					case b.Op == token.GTR && methodCall(b.X, "UnixNano", 0):
+						strictlyLater = true
+					}
+				}
+				return true
+			})
+		}
+		fmt.Fprintf(&e.out, "def lastOfEmptyInputIsError : Bool := %v\ndef lastReplacesOnStrictlyLaterTimestamp : Bool := %v\n", emptyErr, strictlyLater)
+		// the two priority list builders: the statement after `result, err := helpers.CollectPodMetricLast(...)` is
+		// `if err != nil { ...; continue }` ("4. filter no metrics")
+		skips := 0
+		for _, pr := range [][2]string{{"pkg/koordlet/qosmanager/plugins/memoryevict", "memoryEvictor"}, {"pkg/koordlet/qosmanager/plugins/cpuevict", "cpuEvictor"}} {
+			if fd := need(pr[0], pr[1], "getPodEvictInfoAndSortByPriority"); fd != nil {
+				ast.Inspect(fd.Body, func(n ast.Node) bool {
+					blk, ok := n.(*ast.BlockStmt)
+					if !ok {
+						return true
+					}
+					for i, st := range blk.List {
+						as, ok := st.(*ast.AssignStmt)
+						if !ok || len(as.Rhs) != 1 || len(as.Lhs) != 2 {
+							continue
+						}
+						c, ok := as.Rhs[0].(*ast.CallExpr)
+						if !ok || norm(c.Fun) != "helpers.CollectPodMetricLast" || i+1 >= len(blk.List) {
+							continue
+						}
+						if is, ok := blk.List[i+1].(*ast.IfStmt); ok && endsInContinue(is.Body) {
+							if v, ok := neqNil(is.Cond); ok && v == norm(as.Lhs[1]) {
+								skips++
+							}
+						}
+					}
+					return true
+				})
+			}
+		}
+		fmt.Fprintf(&e.out, "def prioBuildersSkippingOnMetricError : Nat := %d\n", skips)
+		// CollectAllPodMetrics (BE memory path): `if podQueryResult.Count() == 0 { ...; continue }`
+		allSkipsEmpty := false
+		if fd := need(hd, "", "CollectAllPodMetrics"); fd != nil {
+			ast.Inspect(fd.Body, func(n ast.Node) bool {
+				if is, ok := n.(*ast.IfStmt); ok && endsInContinue(is.Body) {
+					if b, ok := is.Cond.(*ast.BinaryExpr); ok && b.Op == token.EQL && methodCall(b.X, "Count", 0) && norm(b.Y) == "0" {
+						allSkipsEmpty = true
+					}
+				}
+				return true
+			})
+		}
+		fmt.Fprintf(&e.out, "def collectAllPodMetricsSkipsEmptyResult : Bool := %v\n", allSkipsEmpty)
 	}
 }
